@@ -5,7 +5,10 @@ package bcrypt
 
 //@ func (a Authenticator) Handle(response tq.Response, request tq.Request)
 //@   implements tq.Handler.Handle
-//@   taints[C18] request.Body 3
+//@   taints[C10,C18] request.Body 3
+//@   taints[C10] a.hash 8
+//@   ensures[C10] ghost.authenPass - old(ghost.authenPass) == ghost.cmpOK - old(ghost.cmpOK)
+//@   ensures[C10] ghost.cmpOK == old(ghost.cmpOK) || ghost.cmpOK == old(ghost.cmpOK) + 1
 //@   requires a.loggerProvider != nil
 //@   requires[C14] len(a.hash) == 0 ==> a.getSecret != nil
 
